@@ -1013,6 +1013,11 @@ def classify_atom(M: Model, text: str, n: str, c: str, label_names: set[str]) ->
                 return "in-keys"
             if _is_name(l, n) and isinstance(r, ast.Name) and r.id in label_names:
                 return "labelled"
+            if _is_name(l, n) and isinstance(r, ast.Name) and any(
+                isinstance(x, ast.Call) and isinstance(x.func, ast.Attribute) and x.func.attr in ("add", "append") and isinstance(x.func.value, ast.Name) and x.func.value.id == r.id and len(x.args) == 1 and _is_name(x.args[0], n)
+                for x in _walk_own(M.fn.body)
+            ):
+                return "labelled"  # a 'done' collection the module is put into when its label is written
     if isinstance(e, ast.Call) and isinstance(e.func, ast.Attribute) and e.func.attr == "startswith" and _is_name(e.func.value, n) and len(e.args) == 1:
         if _dotted(e.args[0], c):
             return "proper"
@@ -1307,6 +1312,44 @@ def _has_helper_call(C, e: ast.AST) -> bool:
     return False
 
 
+def label_reads(M: Model, ev: Event, label_names: set[str]) -> list[str]:
+    """expressions (as text) that read the CURRENT label of the module `ev.n` back from the label mapping:
+    the value variable of `for n, label in labels.items()`, `labels[n]`, `labels.get(n)`"""
+    out: list[str] = []
+    if ev.n is None:
+        return out
+    for L in M.loops_around(ev.node):
+        t = L.target
+        if isinstance(t, (ast.Tuple, ast.List)) and len(t.elts) == 2 and all(isinstance(x, ast.Name) for x in t.elts) and t.elts[0].id == ev.n:
+            it = strip_items(M.resolve(L.iter))
+            if it is not None and isinstance(it, ast.Name) and it.id in label_names:
+                out.append(t.elts[1].id)
+    for L_ in sorted(label_names):
+        out += [f"{L_}[{ev.n}]", f"{L_}.get({ev.n})"]
+    return out
+
+
+def strip_items(e: ast.expr):
+    """`list(X.items())` / `X.items()` / `tuple(X.copy().items())`  ->  X"""
+    for _ in range(4):
+        if isinstance(e, ast.Call) and isinstance(e.func, ast.Name) and e.func.id in ("list", "tuple", "sorted", "iter") and len(e.args) == 1:
+            e = e.args[0]
+        else:
+            break
+    if isinstance(e, ast.Call) and isinstance(e.func, ast.Attribute) and e.func.attr == "items" and not e.args:
+        e = e.func.value
+        for _ in range(3):
+            if isinstance(e, ast.Call) and ((isinstance(e.func, ast.Name) and e.func.id == "dict" and len(e.args) == 1) or (isinstance(e.func, ast.Attribute) and e.func.attr == "copy" and not e.args)):
+                e = e.args[0] if isinstance(e.func, ast.Name) else e.func.value
+        return e
+    return None
+
+
+READ_BACK = ("the current label is read back from the label mapping (`{read}`) and used {use}: a label that a more specific alias has already "
+             "written is matched / cut again by a less specific alias whenever the written alias equals or extends that module's name - "
+             "the test and the cut must be taken on the module's name")
+
+
 def _rule_aliased(C, aliased: list[Event], events: list[Event], label_names: set[str]) -> None:
     M: Model = C.M
     r1, r2 = "C17.R1", "C17.R2"
@@ -1321,6 +1364,11 @@ def _rule_aliased(C, aliased: list[Event], events: list[Event], label_names: set
         v = M.resolve(ev.value)
         got = parse_label(M, v, ev.n)
         if got is None:
+            # the same shape taken on the label read back from the mapping instead of on the module's name?
+            reread = next((t for t in label_reads(M, ev, label_names) if (g2 := parse_label(M, v, t)) is not None and g2[0] not in ("bad", "bare")), None)
+            if reread is not None:
+                shape_bad.append((ev, READ_BACK.format(read=reread, use=f"as the source of the remainder in `{norm(ev.value, 60)}`")))
+                continue
             shape_unsure.append((ev, f"the aliased label is built as `{norm(ev.value, 70)}` (= `{norm(v, 90)}`): not recognised as 'alias of the matched ancestor + the rest of the name after it'"))
             continue
         if got[0] == "bare":
@@ -1448,6 +1496,11 @@ def _judge_selection(C, ev: Event, sel: Selection, label_names: set[str], has_se
         env_fix = chosen or {}
     selfs, propers, both, raws, inkeys, others = by("self"), by("proper"), by("self+proper"), by("raw"), by("in-keys"), by("other")
     what_t = "ancestor test"
+    if others:
+        for t in label_reads(M, ev, label_names):
+            hit = [a for a, k in kinds.items() if k == "other" and classify_atom(M, a, t, c, label_names) in ("self", "proper", "self+proper", "raw")]
+            if hit:
+                return [("bad", r1, what_t, READ_BACK.format(read=t, use=f"as the tested string of the ancestor test `{hit[0]}`"), sel.where)]
     truthy = by("alias-truthy")
     if truthy:
         return [("bad", r1, what_t, f"whether an alias applies depends on the alias text being non-empty (`{truthy[0][1]}`): an empty alias is ignored, the module keeps its name or takes a parent's alias", sel.where)]
@@ -1512,7 +1565,8 @@ def _judge_selection(C, ev: Event, sel: Selection, label_names: set[str], has_se
         return out
     if disc == "every" and labelled:
         prefilled = [e2 for e2 in getattr(C, "all_events", []) if e2.kind == "default" and e2.domain == "all" and getattr(e2.store or e2.node, "lineno", 0) < getattr(ev.node, "lineno", 0) and e2.how == "store"]
-        if prefilled:
+        on_mapping = [x for x in labelled if (pe := parse_atom(x[1] if x[0] == "atom" else x[1][1])) is not None and isinstance(pe, ast.Compare) and isinstance(pe.comparators[0], ast.Name) and pe.comparators[0].id in label_names]
+        if prefilled and on_mapping:
             out.append(("bad", r2, what_f, f"`{labelled[0][1]}` is meant to tell whether a more specific alias has been applied, but the mapping was filled with the default labels before (`{norm(prefilled[0].node, 60)}`): it holds for every module and no alias is ever applied", ev.node))
             return out
         disc = "first"  # a structural 'already labelled' test: only the first matching candidate stores
